@@ -23,6 +23,13 @@ PROPS = {
         "assumptions": ["virtual clock (u64 microseconds, saturating Duration add); std::time clock covered by the separate std-clock probe (known finding F6)",
                         "packet counters below 2^64"],
     },
+    "C04": {
+        "sub": "fw",
+        "n": {"quick": 3000, "thorough": 200000},
+        "coq_sample": {"quick": 20, "thorough": 200},
+        "rule": FW_RULE % "at least one action was returned (heavy-tailed and huge distributions incl. NaN/inf start and max, batches of 0..16 events, machines reaching END via events, LimitReached, CounterZero and Signal)",
+        "assumptions": ["virtual clock (1 tick = 1 microsecond) for the 24 h bound"],
+    },
     "C05": {
         "sub": "fw",
         "n": {"quick": 3000, "thorough": 200000},
